@@ -258,7 +258,7 @@ def setup_dump_config_for_cls_if_needed(cls):
             elif f.json.all:
                 keys = f.json.keys
                 if f.json.path:
-                    if set_paths:
+                    if set_paths or f.name not in field_to_path:
                         field_to_path[f.name] = keys
                     field_to_alias[f.name] = ''
                 else:
@@ -272,7 +272,7 @@ def setup_dump_config_for_cls_if_needed(cls):
                     elif value.all:
                         keys = value.keys
                         if value.path:
-                            if set_paths:
+                            if set_paths or f.name not in field_to_path:
                                 field_to_path[f.name] = keys
                             field_to_alias[f.name] = ''
                         else:
@@ -298,7 +298,7 @@ def setup_dump_config_for_cls_if_needed(cls):
                     elif extra.all:
                         keys = extra.keys
                         if extra.path:
-                            if set_paths:
+                            if set_paths or f.name not in field_to_path:
                                 field_to_path[f.name] = keys
                             field_to_alias[f.name] = ''
                         else:
@@ -335,11 +335,14 @@ def _process_field(name: str,
     """Process a :class:`Field` for a dataclass field."""
 
     if f.path is not None:
-        if set_paths:
-            if f.load_alias is not ExplicitNull:
-                load_dataclass_field_to_path[name] = f.path
-            if not f.skip and f.dump_alias is not ExplicitNull:
-                dump_dataclass_field_to_path[name] = f.path[0]
+        # decide per field: an earlier set-up of the class may have been
+        # interrupted after registering only some of its path fields
+        if f.load_alias is not ExplicitNull and (
+                set_paths or name not in load_dataclass_field_to_path):
+            load_dataclass_field_to_path[name] = f.path
+        if (not f.skip and f.dump_alias is not ExplicitNull) and (
+                set_paths or name not in dump_dataclass_field_to_path):
+            dump_dataclass_field_to_path[name] = f.path[0]
         # TODO I forget why this is needed :o
         if f.skip:
             dump_dataclass_field_to_alias[name] = ExplicitNull
